@@ -76,7 +76,7 @@ type c12Req struct {
 	Port    string
 	Rem     string
 	Args    []string
-	Follow  bool // sent under the previous request's session id with the next odd number
+	Follow  bool   // sent under the previous request's session id with the next odd number
 	Ints    [4]int // method, priv, type, service
 	Body    []byte
 	Clear   bool
